@@ -23,18 +23,30 @@ KANI = [
 
 
 def run(rep):
-    info = perm.build(core.REPO)
+    try:
+        info = perm.build(core.REPO)
+    except Exception as e:  # LostAnchor / RewriteRefused
+        rep.undecided.append("U-PERM cannot be generated: " + str(e)[:400])
+        info = {"cuts": {}, "assumptions": [], "text": None, "expect_functions": []}
     rep.cuts.update(info["cuts"])
     for a in info["assumptions"]:
         rep.assume(a)
     rep.assume("vstd multiset / seq library lemmas (group_to_multiset_ensures)")
     rep.functions += ["sophia_c14n::_permutations::for_each_permutation_of", "sophia_c14n::_permutations::permutations (c14n/src/_permutations.rs), extracted verbatim"]
-    res = verus.run_verus(ID, "perm", info["text"])
-    failed = verus.record(rep, res, info["expect_functions"], "verus:perm::", "")
-    can = perm.build(core.REPO, canary="swap_spec_wrong")
-    cres = verus.run_verus(ID, "perm_canary", can["text"])
-    rep.guard("canary: with a swap that overwrites instead of exchanging, `permutations` must be refuted",
-              cres["funcs"].get("permutations") is False, str(cres["funcs"]))
+    res, failed = None, []
+    try:
+        if info["text"] is None:
+            raise core.Undecided("unit not generated")
+        res = verus.run_verus(ID, "perm", info["text"])
+        failed = verus.record(rep, res, info["expect_functions"], "verus:perm::", "")
+        can = perm.build(core.REPO, canary="swap_spec_wrong")
+        cres = verus.run_verus(ID, "perm_canary", can["text"])
+        rep.guard("canary: with a swap that overwrites instead of exchanging, `permutations` must be refuted",
+                  cres["funcs"].get("permutations") is False, str(cres["funcs"]))
+    except core.Undecided as e:
+        # the kernel's proof cannot be checked any more: undecided, unless the Kani harnesses or the native stand-in
+        # below fail on the real code (a violation takes precedence in the verdict)
+        rep.undecided.append("U-PERM: " + str(e)[:400].replace("\n", " | "))
     with overlay.Scratch(ID) as sc:
         sc.append("c14n/src/_permutations.rs", open(core.VERIF + "/contracts/perm/kani_perm.rs").read())
         kfailed = kani_unit.run_harnesses(rep, sc, "sophia_c14n", KANI, jobs=4, need_stubs=False)
@@ -56,7 +68,7 @@ def run(rep):
     deep = rep.tier == "thorough"
     native.bounded_stand_in(rep, ID, "c06", ["rdfc"] + (["deep"] if deep else []), "c06_rdfc10_reference",
                             "normalize_with / relabel_with (SHA-256 and SHA-384, default limits) against an independent transcription of RDFC-1.0 (replay_src/c06/src/oracle.rs): canonical N-Quads equal byte for byte, identifier map is a bijection onto c14n0..c14n(n-1) and yields the document, no failure unless a limit is really exceeded; cycles / stars with 20 combinations of non-default depth factor and permutation limit: an error exactly when the limit is exceeded, the RDFC-1.0 document otherwise",
-                            ("about 470 000" if deep else "69 076") + " comparisons: every dataset of <= 3 quads over a 120-quad universe with 3 blank nodes, blank graph names, 2 predicates (quick: 3-quad datasets over one predicate only), plus cycles / cliques / stars / chains / two components of 2..5 blank nodes, plain, over two named graphs, with blank graph names, with one distinguished edge; 2..4 pairs / paths / rings of nodes from several groups with equal first-degree hashes; hubs of 2..6 leaves distinguishable two steps away; two hubs of 6 leaves (the default permutation limit) under " + ("all 720" if deep else "103") + " assignments of the distinguishing literals x 3 label schemes",
+                            ("about 470 000" if deep else "69 086") + " comparisons: every dataset of <= 3 quads over a 120-quad universe with 3 blank nodes, blank graph names, 2 predicates (quick: 3-quad datasets over one predicate only), plus cycles / cliques / stars / chains / two components of 2..5 blank nodes, plain, over two named graphs, with blank graph names, with one distinguished edge; 2..4 pairs / paths / rings of nodes from several groups with equal first-degree hashes; cycles of 11-13 nodes and two identical lists of 6 / 12 cells (more than 10 temporary identifiers); hubs of 2..6 leaves distinguishable two steps away; two hubs of 6 leaves (the default permutation limit) under " + ("all 720" if deep else "103") + " assignments of the distinguishing literals x 3 label schemes",
                             "relabel_with steps 2-6, hash_first_degree_quads, hash_related_bnode, hash_n_degree_quads, BnodeIssuer, normalize_with sorting and the canonical N-Quads writer (escape-free terms) (c14n/src/rdfc10.rs, _cnq.rs, hash.rs)",
                             "./check C06 --replay <this file>   # replay_src/c06 rdfc")
     rep.not_covered += [
